@@ -325,3 +325,156 @@ func isMarker(name, val string) bool {
 	}
 	return false
 }
+
+// deepDiff lists the paths on which two values differ, looking at every field, exported or not
+// (reads through reflection only by kind, so unexported fields are accessible); nil and empty
+// slices / maps are different values.  Paths in `ignore` are skipped (clock readings).
+func deepDiff(path string, a, b reflect.Value, ignore map[string]bool, out *[]string, depth int) {
+	if ignore[path] || depth > 12 || len(*out) > 20 {
+		return
+	}
+	if a.Kind() != b.Kind() {
+		*out = append(*out, path)
+		return
+	}
+	switch a.Kind() {
+	case reflect.Bool:
+		if a.Bool() != b.Bool() {
+			*out = append(*out, path)
+		}
+	case reflect.Int, reflect.Int8, reflect.Int16, reflect.Int32, reflect.Int64:
+		if a.Int() != b.Int() {
+			*out = append(*out, path)
+		}
+	case reflect.Uint, reflect.Uint8, reflect.Uint16, reflect.Uint32, reflect.Uint64, reflect.Uintptr:
+		if a.Uint() != b.Uint() {
+			*out = append(*out, path)
+		}
+	case reflect.Float32, reflect.Float64:
+		if a.Float() != b.Float() && !(a.Float() != a.Float() && b.Float() != b.Float()) {
+			*out = append(*out, path)
+		}
+	case reflect.String:
+		if a.String() != b.String() {
+			*out = append(*out, path)
+		}
+	case reflect.Ptr, reflect.Interface:
+		if a.IsNil() != b.IsNil() {
+			*out = append(*out, path)
+			return
+		}
+		if !a.IsNil() {
+			deepDiff(path, a.Elem(), b.Elem(), ignore, out, depth+1)
+		}
+	case reflect.Struct:
+		for i := 0; i < a.NumField(); i++ {
+			n := a.Type().Field(i).Name
+			pp := n
+			if path != "" {
+				pp = path + "." + n
+			}
+			if a.Type().Field(i).Anonymous && path == "" {
+				pp = "" // embedded header: its fields are named like own fields …
+				deepDiffEmbedded(a.Field(i), b.Field(i), a.Type(), n, ignore, out, depth+1)
+				continue
+			}
+			deepDiff(pp, a.Field(i), b.Field(i), ignore, out, depth+1)
+		}
+	case reflect.Slice, reflect.Array:
+		if a.Kind() == reflect.Slice && a.IsNil() != b.IsNil() {
+			*out = append(*out, path)
+			return
+		}
+		if a.Len() != b.Len() {
+			*out = append(*out, path)
+			return
+		}
+		for i := 0; i < a.Len(); i++ {
+			before := len(*out)
+			deepDiff(path, a.Index(i), b.Index(i), ignore, out, depth+1)
+			if len(*out) > before {
+				*out = (*out)[:before]
+				*out = append(*out, path)
+				return
+			}
+		}
+	case reflect.Map:
+		if a.IsNil() != b.IsNil() || a.Len() != b.Len() {
+			*out = append(*out, path)
+			return
+		}
+		for _, k := range a.MapKeys() {
+			bv := b.MapIndex(k)
+			if !bv.IsValid() {
+				*out = append(*out, path)
+				return
+			}
+			before := len(*out)
+			deepDiff(path, a.MapIndex(k), bv, ignore, out, depth+1)
+			if len(*out) > before {
+				*out = (*out)[:before]
+				*out = append(*out, path)
+				return
+			}
+		}
+	case reflect.Func, reflect.Chan, reflect.UnsafePointer:
+		// not data
+	}
+}
+
+// … unless shadowed by an own field of the outer struct
+func deepDiffEmbedded(a, b reflect.Value, outer reflect.Type, embName string, ignore map[string]bool, out *[]string, depth int) {
+	own := map[string]bool{}
+	for i := 0; i < outer.NumField(); i++ {
+		if !outer.Field(i).Anonymous {
+			own[outer.Field(i).Name] = true
+		}
+	}
+	for j := 0; j < a.NumField(); j++ {
+		n := a.Type().Field(j).Name
+		if own[n] {
+			n = embName + "." + n
+		}
+		deepDiff(n, a.Field(j), b.Field(j), ignore, out, depth)
+	}
+}
+
+// packDiff: every field (exported or not, nested through pointers) on which two packs differ
+func packDiff(p, q udp.UdpPack, ignore map[string]bool) []string {
+	var out []string
+	deepDiff("", reflect.ValueOf(p).Elem(), reflect.ValueOf(q).Elem(), ignore, &out, 0)
+	sort.Strings(out)
+	return out
+}
+
+// showField renders the field at a top-level name for a failure summary
+func showField(p udp.UdpPack, path string) string {
+	top := path
+	for _, f := range fieldsOf(p) {
+		if f.name == top || strings.HasPrefix(path, f.name+".") {
+			v := fieldVal(p, f)
+			if v.Kind() == reflect.Ptr && !v.IsNil() {
+				return fmt.Sprintf("&%+v", derefPrintable(v.Elem()))
+			}
+			return canonVal(v)
+		}
+	}
+	return "?"
+}
+
+func derefPrintable(v reflect.Value) string {
+	if v.Kind() != reflect.Struct {
+		return v.Kind().String()
+	}
+	var parts []string
+	for i := 0; i < v.NumField() && i < 8; i++ {
+		f := v.Field(i)
+		switch f.Kind() {
+		case reflect.String:
+			parts = append(parts, fmt.Sprintf("%s:%q", v.Type().Field(i).Name, vh.Clip(f.String(), 30)))
+		case reflect.Int, reflect.Int16, reflect.Int32, reflect.Int64:
+			parts = append(parts, fmt.Sprintf("%s:%d", v.Type().Field(i).Name, f.Int()))
+		}
+	}
+	return "{" + strings.Join(parts, " ") + "}"
+}
